@@ -1540,6 +1540,21 @@ Proof. exact all_kinds_round_trip_classes. Qed.
      map with a circle, a slider, a spinner, a hold, a break and an inherited timing line; real curve
      and slider-event models).  The lines are the decoder's line list; the byte / text layer is
      C08 / C10.
+     WITH ONLY RECORDED CLASSES AS OBJECT HYPOTHESES: C02_round_trip_decoded_map_classes /
+     C02_round_trip_chronological_classes.  The per-object Prop [obj_classes] (curve computable,
+     [slider_ok], [spinner_time_ok] / [hold_time_ok]) is replaced by the boolean
+     [objects_in_classes lm m = false] -- no object in D30, D26, D33 (spinner / hold), D13, D17,
+     consecutive Catmull, D21, D22 (slider) -- and is DERIVED from it for the objects of a decoded
+     map (C02_decoded_object_outside_classes): the image parts of [slider_ok] are invariants
+     (C04_decoded_objects_image, C04_decoded_samples_image), the curve of every decoded slider is
+     computable (C02_decoded_slider_invariants), the time condition is the complement of the
+     decidable class D33 (C02_d33_class_is_the_time_condition).  What these two theorems still
+     assume besides the classes: the Display hypotheses, "no line holds a line feed" (true of every
+     line list the line splitter produces), chronological hit-object lines (the property's own
+     hypothesis; [combo_chain] in the first form), and that the encoder and the second decode return
+     (`= Done`).  D31 (a file name on a slider node) is not a hypothesis but the premise
+     "first_file l = None" of the node clause of the relation.  Satisfiable:
+     C02_round_trip_classes_hypotheses_example / C02_round_trip_classes_example (the same map).
 
    T02b  circles / spinners / holds: MECHANISED per line, up to [carry_object] (per-sample volume /
      custom index / suffix / layering erased), for decoded maps with the hypotheses discharged
@@ -1556,9 +1571,20 @@ Proof. exact all_kinds_round_trip_classes. Qed.
      difference is a binary64 number (C02_times_ok_exact_difference; binary grids: C02_times_ok_grid,
      C02_times_ok_grid21; whole milliseconds: C02_times_ok_whole_milliseconds, C02_times_ok_partial;
      any fractional times with start / 2 <= end <= 2 * start: C02_times_ok_sterbenz)
-     and whenever the written end is the end that was read (C02_times_ok_of_end).  OPEN between these
-     classes and D33: pairs whose difference is rounded but whose duration survives (most
-     fractional times; the oracle checks each instance).
+     and whenever the written end is the end that was read (C02_times_ok_of_end).
+     D33 AS A CLASS: [d33_object h] is the boolean "clip(fl(fl(start + d) - start)) <> d" on the STORED
+     start and duration, the exact complement of the time condition
+     (C02_d33_class_is_the_time_condition), inhabited by a decoded map (C02_d33_decoded_witness);
+     the top-level theorems take "not in D33" and nothing else about the times.  The stored
+     duration of EVERY decoded spinner / hold has the decoder's form max(0, fl(e - start)) resp.
+     fl(max(start, e) - start) for an end e within the parse limits, and every start is within the
+     limits (C02_decoded_durations_have_decoder_form: line parser, stable sort, break post-processing,
+     per-object loop) -- so the C02_times_ok_* theorems apply to decoded objects: an object in D33 had
+     an end whose difference to the start is not a binary64 number and that fl(start + d) does not
+     reproduce (C02_decoded_d33_inexact); whole-millisecond stored times are never in D33
+     (C02_whole_milliseconds_not_d33).  OPEN: a closed arithmetic description of D33 (WHICH pairs
+     with a rounded difference lose the duration; most fractional pairs do not) -- not needed by the
+     theorems, which are stated with the decidable class itself; the oracle checks each instance.
 
    T02c  slider path strings: MECHANISED in full (C02_path_round_trip on the decoder's image
      C02_path_image_is_decoder_image, outside D13 / D17 / consecutive Catmull).
@@ -1582,9 +1608,14 @@ Proof. exact all_kinds_round_trip_classes. Qed.
      order on the original input is class D22).  The image premises of the node clause are FACTS
      about every decoded map (C02_decoded_slider_nodes_image), discharged in the top-level theorems
      ([final_rel_decoded]).  The velocities of corresponding sliders agree: C02_round_trip_velocities
-     (a separate statement under the same hypotheses).  LEFT OPEN: the combo offset of a slider is
-     shown to survive only next to the new-combo bit (an offset without the bit cannot be produced
-     by the decoder; not mechanised for sliders).
+     (a separate statement under the same hypotheses; part of the conclusion of the _classes forms).
+     The combo offset of a slider: [final_rel] / [final_rel_decoded] say "offset if new combo, else
+     0"; a slider of a decoded map carries an offset only next to the new-combo flag
+     (C02_decoded_slider_invariants: the decoder stores `if new_combo { offset } else { 0 }` for the
+     type field's own bit, the parser state and the break post-processing only SET the flag), so the
+     _classes forms state sl_combo_offset s' = sl_combo_offset s unconditionally
+     ([final_rel_classes]).  An offset without the bit is therefore not a finding: it is outside the
+     decoder's image.
 
    Everything above is also covered by the bit-exact `enc` correspondence (decode + encode model
    against the crate, slider files included) and by the C02 oracle, which compares exactly the
